@@ -11,7 +11,6 @@ Section Abstract.
   Variables (G D : Type) (draw : G -> D -> option (T * G)).
   Variable ok : X -> Prop.
   Hypothesis laws : store_laws vget vset ok.
-  Hypothesis upd_id : forall l, upd l = l.          (* no pickups / solves *)
 
   Variable l0 : L.                                   (* nominal lens *)
   Variables hp hc : list X.                          (* handles of the perturbations / compensators *)
@@ -20,15 +19,18 @@ Section Abstract.
   Let pv := map (mkvar vget l0) hp.
   Let cv := map (mkvar vget l0) hc.
   Let H := hp ++ hc.
+  Variable eqv : L -> L -> Prop.                     (* equal up to pickup targets / solved coordinates *)
+  Hypothesis ulaws : update_laws vset upd H l0 eqv.  (* Optic.update(); eqv := eq, upd := id when there are none *)
 
   Notation reset_vars := (reset_vars vset).
-  Notation treset := (treset vset pv cv).
-  Notation reach := (reach vset H l0).
+  Notation treset := (treset vset upd pv cv).
+  Notation reach0 := (reach0 vset H l0).
+  Notation reach := (reach vset upd H l0).
 
   Lemma map_vx_mkvar hs : map (@vx O X) (map (mkvar vget l0) hs) = hs.
   Proof. induction hs; simpl; congruence. Qed.
 
-  Lemma treset_app l : treset l = reset_vars (pv ++ cv) l.
+  Lemma treset_app l : treset l = upd (reset_vars (pv ++ cv) l).
   Proof. unfold M_C15.treset, M_C15.reset_vars. rewrite fold_left_app. reflexivity. Qed.
 
   Lemma pvcv : pv ++ cv = map (mkvar vget l0) H.
@@ -56,13 +58,37 @@ Section Abstract.
     inversion Hok; subst. simpl. rewrite (set_get laws); auto.
   Qed.
 
-  (** ** reset_restores *)
-  Theorem reset_restores : forall l, reach l -> treset l = l0.
+  Lemma reset_restores0 : forall l, reach0 l -> reset_vars (pv ++ cv) l = l0.
   Proof.
-    intros l Hr. rewrite treset_app, pvcv.
+    intros l Hr. rewrite pvcv.
     induction Hr as [|l x a Hr IH Hin].
     - apply reset_nominal; exact allok.
     - rewrite reset_absorb; auto.
+  Qed.
+
+  (** every reachable state equals, up to derived coordinates, a state reached by handle writes only *)
+  Lemma reach_pure : forall l, reach l -> exists lp, reach0 lp /\ eqv l lp.
+  Proof.
+    intros l Hr. induction Hr as [|l x a Hr [lp [Hp He]] Hin|l Hr [lp [Hp He]]].
+    - exists l0. split; [constructor|apply (eqv_refl ulaws)].
+    - exists (vset lp x a). split; [constructor; assumption|apply (set_cong ulaws); assumption].
+    - exists lp. split; [assumption|]. eapply (eqv_trans ulaws); [apply (upd_eqv ulaws)|exact He].
+  Qed.
+
+  Lemma reset_vars_cong : forall hs l l', incl hs H -> eqv l l' ->
+      eqv (reset_vars (map (mkvar vget l0) hs) l) (reset_vars (map (mkvar vget l0) hs) l').
+  Proof.
+    induction hs as [|h hs IH]; intros l l' Hinc He; [exact He|].
+    simpl. apply IH. { intros y Hy; apply Hinc; right; exact Hy. }
+    apply (set_cong ulaws); [apply Hinc; left; reflexivity|exact He].
+  Qed.
+
+  (** ** reset_restores (with pickups / solves: reset ends with Optic.update()) *)
+  Theorem reset_restores : forall l, reach l -> treset l = l0.
+  Proof.
+    intros l Hr. rewrite treset_app. destruct (reach_pure Hr) as [lp [Hp He]].
+    rewrite <- (upd_nominal ulaws), <- (reset_restores0 Hp). apply (upd_cong ulaws).
+    rewrite pvcv. apply reset_vars_cong; [apply incl_refl|exact He].
   Qed.
 
   Lemma reach_set_all : forall xs vals l, incl xs H -> reach l -> reach (set_all vset xs vals l).
@@ -77,7 +103,7 @@ Section Abstract.
   Proof.
     intros tr l Hr. unfold compensate. destruct cv eqn:Ecv; [exact Hr|]. rewrite <- Ecv.
     revert l Hr. induction tr as [|x tr IH]; intros l Hr; [exact Hr|].
-    simpl. apply IH. unfold fun_call. rewrite upd_id. apply reach_set_all; auto.
+    simpl. apply IH. unfold fun_call. apply reach_upd. apply reach_set_all; auto.
     unfold cv. rewrite map_vx_mkvar. unfold H. apply incl_appr, incl_refl.
   Qed.
 
@@ -314,6 +340,18 @@ Section Example2.
   Qed.
   Example handles_example : NoDup ([true] ++ [false]) /\ Forall (fun _ : bool => True) ([true] ++ [false]).
   Proof. split; [repeat constructor; simpl; intuition congruence|repeat constructor]. Qed.
+  (** Optic.update(): without pickups it is the identity ... *)
+  Example update_laws_trivial : forall l0, update_laws (O:=ROps) set2 (fun l => l) [true; false] l0 eq.
+  Proof. intros l0. split; intros; subst; congruence. Qed.
+  (** ... and with a pickup "second coordinate := - first coordinate" (only the first one is a handle) *)
+  Definition upd2 (l : L2) : L2 := (fst l, - fst l).
+  Example update_laws_pickup : update_laws (O:=ROps) set2 upd2 [true] (60, -60) (fun l l' => fst l = fst l').
+  Proof.
+    split; try (intros; simpl in *; congruence).
+    - intros [a b] [a' b'] H; unfold upd2; simpl in *; subst; reflexivity.
+    - intros [a b] [a' b'] x v [Hx|[]] H; subst x; reflexivity.
+    - unfold upd2; simpl. f_equal.
+  Qed.
   (** and the machine really runs on it: one Monte-Carlo trial with a scalar sampler, row = fresh evaluation *)
   Example run_example :
     let pv := map (mkvar (O:=ROps) get2 (60, 5)) [true] in
